@@ -158,6 +158,21 @@ Proof. unfold api_probe. good_tac. Qed.
 Lemma good_api_probe_link ph l : good (api_probe_link ph l).
 Proof. unfold api_probe_link. good_tac. Qed.
 
+Lemma good_gen_ids k : good (gen_ids k).
+Proof.
+  repeat split; cbn; auto. intros s t' x _ E. injection E as <- <-.
+  eexists. split; [reflexivity|]. split; reflexivity.
+Qed.
+Lemma good_n_nodes : good n_nodes.
+Proof. unfold n_nodes. auto with good. Qed.
+#[export] Hint Resolve good_gen_ids good_n_nodes : good.
+Lemma good_copy_props pg props keep : good (copy_props pg props keep).
+Proof. revert pg; induction props as [|[k pa] rest IH]; intros pg; cbn [copy_props]; [apply good_ret|].
+  good_tac; try apply IH. Qed.
+#[export] Hint Resolve good_copy_props : good.
+Lemma good_api_copy d x n k c : good (api_copy d x n k c).
+Proof. unfold api_copy. good_tac. Qed.
+
 (* ---- lifted to the operations of a history *)
 Definition is_reopen (o : op) : bool := match o with OReopen _ => true | _ => false end.
 
@@ -182,6 +197,7 @@ Definition op_prog (o : op) (now : Z) : option (M N + M unit) :=
   | OSetLink p r x => Some (inr (api_set_link p r x now))
   | OSetAttr p a v => Some (inr (api_set_attr p a v now))
   | OForce p c t => Some (inr (api_force p c t))
+  | OCopy d x n k c => Some (inl (api_copy d x n k c))
   | OFind _ _ _ | OParent _ _ | OReferring _ _ | OProbe _ _ | OProbeLink _ _ | OSetAuto _ | OReopen _ => None
   end.
 
@@ -198,7 +214,7 @@ Proof.
                     | apply good_api_lookup | apply good_api_lookup_link | apply good_api_delete
                     | apply good_api_append | apply good_api_remove | apply good_api_set_link
                     | apply good_api_set_attr | apply good_api_force | apply good_api_probe | apply good_api_probe_link
-                    | apply good_api_find | apply good_api_parent | apply good_api_referring ];
+                    | apply good_api_find | apply good_api_parent | apply good_api_referring | apply good_api_copy ];
             destruct G as [_ [G _]]; apply G; exact Hro
         end.
   reflexivity.
@@ -249,6 +265,7 @@ Proof.
   - apply TwinT; [apply good_api_referring | exact E].
   - apply TwinT; [apply good_api_probe | exact E].
   - apply TwinT; [apply good_api_probe_link | exact E].
+  - apply TwinN; [apply good_api_copy | exact E].
   - injection E as <- <-. eexists. split; reflexivity.
 Qed.
 
